@@ -185,7 +185,8 @@ func (w *World) Store2(i int, dir string, conc int, mutateAt int, script []SOp, 
 				}
 			}()
 			w.inCallback = true
-			defer func() { w.inCallback = false }()
+			w.freeRunning = true
+			defer func() { w.inCallback = false; w.freeRunning = false }()
 			w.runScript(script)
 			w.flag("mutated-during-backup")
 		}()
